@@ -28,6 +28,10 @@ def run_case(case: dict) -> dict:
     calls = []
     for k in range(1, case.get("ncb", 2) + 1):
         cons.add_callback(lambda e, _k=k: calls.append([_k, e.code, e.register, B(e.data), e.timestamp]))
+    # a second consumer in the same process (another node of the network) with its own callback
+    by = canopen.RemoteNode(nid % 127 + 1, od)
+    net1.add_node(by)
+    by.emcy.add_callback(lambda e: calls.append([99, e.code, e.register, B(e.data), e.timestamp]))
     ev = []
 
     def proj(lst):
@@ -49,6 +53,14 @@ def run_case(case: dict) -> dict:
             except Exception:  # noqa
                 raised = True
             log({"e": "frame", "d": list(op["d"]), "ts": op["ts"], "cbs": [list(c) for c in calls]}, raised)
+        elif o == "bframe":      # a frame of the other node: nothing of this consumer may change
+            del calls[:]
+            try:
+                net1.notify(0x80 + nid % 127 + 1, bytearray(op["d"]), op["ts"])
+            except Exception:  # noqa
+                raised = True
+            log({"e": "bframe", "d": list(op["d"]), "ts": op["ts"], "cbs": [list(c) for c in calls],
+                 "blog": len(by.emcy.log)}, raised)
         elif o == "reset":
             cons.reset()
             log({"e": "reset"})
@@ -73,17 +85,24 @@ def run_case(case: dict) -> dict:
                     res["r"] = [] if r is None else [r.code, r.register, B(r.data), r.timestamp]
                 except Exception as exc:  # noqa
                     res["r"] = ["exc", repr(exc)]
+            import canopen.emcy as emcy_mod
+            from harness.bus import FakeTime
+            vclock = emcy_mod.time = FakeTime()          # the deadline is taken on a virtual clock
             th = threading.Thread(target=waiter, daemon=True)
             th.start()
             fed = []
-            for d, ts in op["feed"]:
+            for item in op["feed"]:
+                d, ts = item[0], item[1]
+                late = len(item) > 2 and item[2]
                 t0 = time.time()
                 while not cons.emcy_received._waiters and th.is_alive() and time.time() - t0 < 5:
                     time.sleep(0.0005)
                 if not th.is_alive():
                     break
+                if late:        # this frame arrives after the caller's time-out has expired
+                    vclock.now += op["timeout"] + 1.0
                 net1.notify(0x80 + nid, bytearray(d), ts)
-                fed.append([list(d), ts])
+                fed.append([list(d), ts, 1 if late else 0])
                 t0 = time.time()
                 while cons.emcy_received._waiters and th.is_alive() and time.time() - t0 < 0.05:
                     time.sleep(0.0005)
